@@ -199,6 +199,9 @@ func (mpt *MerklePatriciaTrie) Insert(path Path, value MPTSerializable) (Key, er
 	}
 
 	valueCopy := &SecureSerializableValue{eval}
+	// the nodes built below keep sub-slices of the path: use a copy, the
+	// caller's slice stays the caller's
+	path = concat(path)
 	mpt.mutex.Lock()
 	defer mpt.mutex.Unlock()
 	var newRootHash Key
